@@ -35,7 +35,11 @@ const (
 	clientName = "ethsim"
 	// kfNonHead is the known-finding key of the RestrictChain defect: a valid child of a stored header
 	// that is not on the head's ancestry is rejected.
-	kfNonHead      = "restrictchain-nonhead-branch"
+	kfNonHead = "restrictchain-nonhead-branch"
+	// kfEqualRoot is the second manifestation of the same RestrictChain defect: when the head is higher
+	// than the new header and the (state root, height) index is ambiguous at the new header's height,
+	// a child of an off-ancestry header is accepted but the consensus states below it stay on the old branch.
+	kfEqualRoot    = "restrictchain-equal-root-stale-ancestry"
 	trustingPeriod = 1_000_000_000 // never expires, nothing is pruned (expiry is not part of C10)
 	maxDepth       = 8
 	maxBranching   = 3
@@ -74,10 +78,11 @@ type stepLog struct {
 }
 
 type world struct {
-	c      *kit.Chain
-	ctx    sdk.Context // the case's branch of the base chain (never written back)
-	now    uint64
-	listed bool
+	c       *kit.Chain
+	ctx     sdk.Context // the case's branch of the base chain (never written back)
+	now     uint64
+	listed  bool // kfNonHead is listed
+	listed2 bool // kfEqualRoot is listed
 
 	tree     *ethsim.Tree // every header the model knows (generated, accepted mutants)
 	opts     map[int]ethsim.ChildOpts
@@ -141,6 +146,33 @@ func (w *world) judge(h *gethtypes.Header) verdict {
 	return verdict{true, "", pid}
 }
 
+// ambiguousRootIndex is the precondition of the known finding kfEqualRoot for a new header h: the head
+// is higher than h and, at h's height, the state root of the head's ancestor is carried by at least
+// one more stored header (or by h itself), so the client's (state root, height) -> header index can
+// name a header that is not the head's ancestor.
+func (w *world) ambiguousRootIndex(h *gethtypes.Header) bool {
+	ht := h.Number.Uint64()
+	if w.tree.Nodes[w.head].Header.Number.Uint64() <= ht {
+		return false
+	}
+	anc := w.head
+	for w.tree.Nodes[anc].Header.Number.Uint64() > ht {
+		anc = w.tree.Nodes[anc].Parent
+	}
+	root := w.tree.Nodes[anc].Header.Root
+	n := 0
+	if h.Root == root {
+		n++
+	}
+	for _, id := range w.acceptedIDs(nil) {
+		x := w.tree.Nodes[id].Header
+		if x.Number.Uint64() == ht && x.Root == root {
+			n++
+		}
+	}
+	return n >= 2
+}
+
 func (w *world) onHeadAncestry(id int) bool { return w.tree.IsAncestorOrSelf(id, w.head) }
 
 // update delivers one header the way DeliverTx does: nested cache context, written only on nil error.
@@ -197,9 +229,15 @@ func checkHeadAndAncestry(c *kit.Chain, ctx sdk.Context, tree *ethsim.Tree, head
 // step submits h and checks the outcome against the model. op names the generator class.
 func (w *world) step(t *rapid.T, r *rec.Recorder, op, name string, h *gethtypes.Header, wantClass string) {
 	v := w.judge(h)
-	if w.listed && v.accept && !w.onHeadAncestry(v.parent) {
-		r.Exclude(kfNonHead)
-		t.Skip("excluded: valid child of a stored header off the head's ancestry (known finding)")
+	if v.accept && !w.onHeadAncestry(v.parent) {
+		if w.listed {
+			r.Exclude(kfNonHead)
+			t.Skip("excluded: valid child of a stored header off the head's ancestry (known finding)")
+		}
+		if w.listed2 && w.ambiguousRootIndex(h) {
+			r.Exclude(kfEqualRoot)
+			t.Skip("excluded: the same with an ambiguous (state root, height) index (known finding)")
+		}
 	}
 	// the generator's intention must agree with the reference (harness sanity, not a property)
 	switch wantClass {
@@ -517,7 +555,7 @@ func (w *world) mutate(t *rapid.T, class string, pid int, v *gethtypes.Header) (
 func runTree(t *rapid.T, r *rec.Recorder) {
 	c := baseChain()
 	ctx, _ := c.Ctx().CacheContext()
-	w := &world{c: c, ctx: ctx, listed: kf.Listed("C10", kfNonHead), accepted: map[int]bool{}, counts: map[string]int{}}
+	w := &world{c: c, ctx: ctx, listed: kf.Listed("C10", kfNonHead), listed2: kf.Listed("C10", kfEqualRoot), accepted: map[int]bool{}, counts: map[string]int{}}
 	w.setNow(startNow)
 	w.genTree(t, r)
 	root := w.tree.Nodes[0].Header
@@ -617,22 +655,31 @@ func runTree(t *rapid.T, r *rec.Recorder) {
 		"": func(t *rapid.T) {
 			all := w.acceptedIDs(nil)
 			pid := rapid.SampledFrom(all).Draw(t, "probeParent")
-			if w.listed && !w.onHeadAncestry(pid) {
-				// known finding: such a child is rejected. Only that exact manifestation is tolerated (and
-				// counted as excluded); if the client accepts the child, everything else must be right.
+			if (w.listed || w.listed2) && !w.onHeadAncestry(pid) {
+				// known findings: such a child is rejected, or accepted with stale consensus states when
+				// the (state root, height) index is ambiguous. Only these exact manifestations are tolerated
+				// (and counted as excluded); anything else is a violation.
 				if child := w.freshChild(t, pid, "probe-off"); child != nil {
 					pctx, _ := w.ctx.CacheContext()
 					if err := update(c, pctx, child); err != nil {
+						if !w.listed {
+							w.fail(t, "liveness: fresh valid child (height %d, time %d) of stored off-ancestry header #%d (head is #%d) rejected: %v",
+								child.Number.Uint64(), child.Time, pid, w.head, err)
+						}
 						r.Exclude(kfNonHead)
 						r.Label("probe_child_of_off_ancestry_header_rejected_known_finding")
 					} else {
 						scratch := *w.tree
 						scratch.Nodes = append(append([]*ethsim.Node{}, w.tree.Nodes...), &ethsim.Node{
 							ID: len(w.tree.Nodes), Parent: pid, Depth: w.tree.Nodes[pid].Depth + 1, Header: child, Hash: child.Hash()})
-						if msg := checkHeadAndAncestry(c, pctx, &scratch, len(w.tree.Nodes)); msg != "" {
-							w.fail(t, "liveness: fresh child of stored off-ancestry header #%d accepted (head was #%d) but: %s", pid, w.head, msg)
+						if msg := checkHeadAndAncestry(c, pctx, &scratch, len(w.tree.Nodes)); msg == "" {
+							r.Label("probe_child_of_off_ancestry_header_accepted_despite_listed_finding")
+						} else if w.listed2 && strings.HasPrefix(msg, "consensus state at height") && w.ambiguousRootIndex(child) {
+							r.Exclude(kfEqualRoot)
+							r.Label("probe_child_of_off_ancestry_header_accepted_with_stale_ancestry_known_finding")
+						} else {
+							w.fail(t, "liveness: fresh child (root %s) of stored off-ancestry header #%d accepted (head was #%d) but: %s", short(child.Root), pid, w.head, msg)
 						}
-						r.Label("probe_child_of_off_ancestry_header_accepted_despite_listed_finding")
 					}
 				}
 				pid = rapid.SampledFrom(w.acceptedIDs(w.onHeadAncestry)).Draw(t, "probeParentOnAncestry")
